@@ -12,7 +12,7 @@ ALL_BRANCHES = {"assoc.left_child_up", "assoc.right_child_up", "comm.equation", 
                 "restate.add_neg_const", "restate.add_neg_const_var", "restate.add_neg_const_var_exp", "varmul.simple", "varmul.chained", "varmul.chained_left_right",
                 "move.const_of_multiply", "move.addition", "factor.simple", "factor.chained_both", "factor.chained_right", "factor.chained_right_left",
                 "factor.chained_left", "factor.chained_left_right"}
-STRUCT = {"vars", "context", "source_modified", "shares_nodes_with_source", "result_not_expression"}
+STRUCT = {"vars", "context", "source_modified", "shares_nodes_with_source", "result_not_expression", "worked_on_another_node"}
 CLAUSES = {
     "C01": {"value"},
     "C02": {"solutions", "divides_by_zero"},
@@ -173,6 +173,13 @@ def run_family(ctx, cases, prop):
         res.rule = "replay"
     from multiprocessing import Pool
     jobs = [(t, prop == "C06", (8 if t in set(rewrite.NUMPY_ZERO_EQ_FORMS) else True) if prop == "C02" else False) for t in texts]
+    if prop in ("C01", "C07") and cases is None:
+        rng3 = random.Random(ctx.seed + 17)
+        pick2 = set(rng3.sample(texts, min(len(texts), 250 if ctx.quick else 5000))) | set(rewrite.FORMS + rewrite.EQ_FORMS + rewrite.SHARED_ID_FORMS + rewrite.SHARED_ID_EQ_FORMS)
+        jobs = [(t, False, False, 3 if t in pick2 else 0) for t in texts]
+        res.rule += "; for the special forms and a sample of %d texts also: find_nodes() of every rule on one tree, a first step applied in place, then every rule at every node of that very tree" % len(pick2)
+    elif prop in ("C01", "C07"):
+        jobs = [(t, False, False, 6) for t in texts]
     if prop == "C06" and cases is None:
         # two-step derivations asked about again: every rule object is asked about (and applied to) trees that only a rewrite can produce
         special = rewrite.UNDEF_FORMS + rewrite.FORMS + rewrite.EQ_FORMS
